@@ -9,6 +9,8 @@ import rules_w as RW
 import rules_c17 as RC17
 import rules_sched as RS
 import rules_subject as RJ
+import rules_x as RX
+import rules_count as RCNT
 
 COMBINATORS = ("merge", "flat_map", "concat", "zip", "combine_latest", "amb", "take_until",
                "skip_until", "sample", "switch_on_next", "sequence_equal")
@@ -51,6 +53,18 @@ def _only(r, prefixes, contains=None):
     return r
 
 
+def _pfx(*prefixes):
+    return lambda t: t.lstrip("<").startswith(prefixes)
+
+
+def _xacq(*prefixes):
+    return lambda c: RX.x_blocking_acq(c.P, c.E, c.H, _pfx(*prefixes))
+
+
+def _xclone(floor, *prefixes):
+    return lambda c: RX.clone_shares(c.P, c.E, _pfx(*prefixes), floor)
+
+
 class Ctx:
     def __init__(self, P, E, H):
         self.P, self.E, self.H = P, E, H
@@ -67,12 +81,16 @@ def rules_for(pid):
             ("F-no-guard-call", lambda c: RO.f_no_guard_call(c.P, c.E), 3),
             ("S-gate", lambda c: RO.s_gate(c.P, c.E), 3),
             ("S-finalize-after-terminal", lambda c: RO.s_finalize_after_terminal(c.P, c.E), 3),
+            ("A19b", lambda c: RJ.a19b(c.P, c.E), 3),
+            ("X-blocking-acq", _xacq("observer::", "internals::function_wrapper::"), 5),
+            ("CLONE-SHARES", _xclone(2, "observer::", "internals::function_wrapper::"), 2),
         ],
         "C02": [
             ("H-complete", lambda c: RH.h_complete(c.P, c.E, c.H, scope_c02), 14),
             ("H-serial", lambda c: RH.h_serial(c.P, c.E, c.H), 28),
             ("K-fresh-state", lambda c: RK.k_fresh_state(c.P, c.E, lambda root: not _is_combinator_root(root)), 18),
             ("D-compose", lambda c: RO.d_compose(c.P, c.E), 3),
+            ("COUNT", lambda c: RCNT.count_rule(c.P, c.E, c.H), 6),
         ],
         "C03": [
             ("H-register-first", lambda c: RH.h_register_first(c.P, c.E, c.H), 9),
@@ -91,7 +109,7 @@ def rules_for(pid):
             ("H-role-agreement", lambda c: RH.h_role_agreement(c.P, c.E, c.H), 24),
             ("H-complete", lambda c: RH.h_complete(c.P, c.E, c.H, scope_c04), 3),
             ("T-rxerror", lambda c: RH.rxerror_immutable(c.P, c.E), 3),
-            ("J-terminal", lambda c: _only(RJ.j_rules(c.P, c.E), ("J3", "J4")), 3),
+            ("J-terminal", lambda c: _only(RJ.j_rules(c.P, c.E), ("J3", "J4", "J7")), 3),
             ("K-fresh-state", lambda c: RK.k_fresh_state(c.P, c.E, lambda root: root.startswith("operators::")
                                                         and root.split("::")[1] in RECOVERY), 3),
         ],
@@ -103,6 +121,8 @@ def rules_for(pid):
             ("O-typestate", lambda c: RO.o_typestate(
                 c.P, c.E, ("callback after unsubscribe", "is_subscribed not false", "slot refilled")), 4),
             ("S-gate", lambda c: RO.s_gate(c.P, c.E), 3),
+            ("X-blocking-acq", _xacq("observer::", "internals::function_wrapper::", "subscription::"), 5),
+            ("CLONE-SHARES", _xclone(2, "observer::", "subscription::"), 2),
         ],
         "C06": [
             ("H-early-stop", lambda c: RH.h_early_stop(c.P, c.E, c.H), 24),
@@ -114,6 +134,8 @@ def rules_for(pid):
             ("SUB-live-gate", lambda c: RO.sub_live_gate(c.P, c.E), 1),
             ("H-register-first", lambda c: RH.h_register_first(c.P, c.E, c.H), 9),
             ("LATE-HANDLE", lambda c: RJ.late_handle(c.P, c.E), 2),
+            ("X-blocking-acq", _xacq("operators::", "internals::stream_controller::", "subscription::", "observable::"), 40),
+            ("CLONE-SHARES", _xclone(1, "internals::stream_controller::"), 1),
         ],
         "C07": [
             ("L1", lambda c: RL.l1_reentrancy(c.P, c.E, c.H), 19),
@@ -124,6 +146,8 @@ def rules_for(pid):
         ],
         "C08": [
             ("Q", lambda c: RQ.q_rules(c.P, c.E), 10),
+            ("X-blocking-acq", _xacq("schedulers::"), 4),
+            ("CLONE-SHARES", _xclone(2, "schedulers::"), 2),
         ],
         "C17": [
             ("K-self-cycle", lambda c: RC17.k_self_cycle(c.P, c.E), 5),
@@ -134,9 +158,12 @@ def rules_for(pid):
             ("S-finalize-shape", lambda c: RO.s_finalize_shape(c.P, c.E), 3),
             ("O-unsub-order", lambda c: RO.o_unsub_order(c.P, c.E), 4),
             ("SUB-live-gate", lambda c: RO.sub_live_gate(c.P, c.E), 1),
+            ("H-early-stop", lambda c: RH.h_early_stop(c.P, c.E, c.H), 24),
         ],
         "C18": [
             ("W", lambda c: RW.w_rules(c.P, c.E), 4),
+            ("CLONE-SHARES", _xclone(1, "operators::to_vec::"), 1),
+            ("X-blocking-acq", _xacq("operators::to_vec::"), 3),
         ],
         "C09": [
             ("HANDOFF", lambda c: RS.handoff_rules(c.P, c.E, c.H), 3),
@@ -153,6 +180,9 @@ def rules_for(pid):
             ("D-compose", lambda c: RO.d_compose(c.P, c.E), 3),
             ("L2", lambda c: RL.l2_leaf_locks(c.P, c.E), 7),
             ("LATE-HANDLE", lambda c: RJ.late_handle(c.P, c.E), 2),
+            ("K-hot-state", lambda c: RX.k_hot_state(c.P, c.E, c.H), 3),
+            ("X-blocking-acq", _xacq("subjects::"), 15),
+            ("CLONE-SHARES", _xclone(3, "subjects::"), 3),
         ],
         "C11": [
             ("D", lambda c: RJ.d_rules(c.P, c.E, c.H), 3),
@@ -163,24 +193,36 @@ def rules_for(pid):
         "C12": [
             ("J", lambda c: _only(RJ.j_rules(c.P, c.E), ("J2", "J3", "J6", "J7")), 5),
             ("J8", lambda c: RJ.j_windows(c.P, c.E), 4),
+            ("K-hot-state", lambda c: RX.k_hot_state(c.P, c.E, c.H), 3),
+            ("X-blocking-acq", _xacq("subjects::"), 15),
+            ("CLONE-SHARES", _xclone(3, "subjects::"), 3),
         ],
         "C13": [
             ("P", lambda c: RJ.p_rules(c.P, c.E), 6),
             ("J", lambda c: _only(RJ.j_rules(c.P, c.E), ("J1", "J2", "J5", "J6", "J7")), 3),
+            ("X-blocking-acq", _xacq("operators::ref_count::", "operators::replay::", "operators::publish::", "subjects::"), 15),
+            ("CLONE-SHARES", _xclone(3, "operators::ref_count::", "operators::replay::", "operators::publish::"), 3),
         ],
         "C15": [
             ("T1", lambda c: RS.t1_abort_wired(c.P, c.E), 3),
             ("Q7-Q8", lambda c: _only(RQ.q_rules(c.P, c.E), ("Q7", "Q8")), 3),
             ("S-finalize-shape", lambda c: RO.s_finalize_shape(c.P, c.E), 3),
             ("L4", lambda c: RL.l4_producer_polling(c.P, c.E), 3),
+            ("S-finalize-after-terminal", lambda c: RO.s_finalize_after_terminal(c.P, c.E), 3),
+            ("X-blocking-acq", _xacq("schedulers::"), 4),
         ],
         "C19": [
             ("A19b", lambda c: RJ.a19b(c.P, c.E), 3),
             ("S-gate", lambda c: RO.s_gate(c.P, c.E), 3),
+            ("O-typestate", lambda c: RO.o_typestate(c.P, c.E, ("callback after terminal", "two terminals in one call", "slot refilled")), 4),
+            ("F-atomic-take", lambda c: RO.f_atomic_take(c.P, c.E), 3),
+            ("F-no-guard-call", lambda c: RO.f_no_guard_call(c.P, c.E), 3),
+            ("X-blocking-acq", _xacq("observer::", "internals::function_wrapper::"), 5),
         ],
         "C14": [
             ("K-fresh-state", lambda c: RK.k_fresh_state(c.P, c.E), 28),
             ("K-fw-immutable", lambda c: RK.k_fw_immutable(c.P, c.E), 3),
+            ("CLONE-SHARES", _xclone(40, "operators::", "observable::", "internals::function_wrapper::"), 40),
         ],
     }
     return R.get(pid, [])
@@ -194,10 +236,13 @@ EXPLANATION = {
            "exhaustively (O-typestate).  F-atomic-take / F-no-guard-call: a terminal is taken under one "
            "write guard and invoked outside it.  S-gate / S-finalize-after-terminal: operators deliver only "
            "behind is_subscribed() and tear down after a terminal.  Concurrent histories are C19's subject.",
-    "C02": "Terminal-forwarding clause only: for every single-source operator's handler triple, the "
+    "C02": "Terminal forwarding: for every single-source operator's handler triple, the "
            "complete-handler reaches a downstream completion on every CFG path (H-complete) and serial "
-           "arguments are the handler's own (H-serial).  Item values, counts and order are NOT decided "
-           "(they quantify over runtime values).",
+           "arguments are the handler's own (H-serial).  Counting clause (COUNT): for take / skip / take_last / "
+           "skip_last / buffer_with_count / window_with_count the item handler is summarised symbolically into "
+           "guarded transitions over (counter or queue length, count) and explored for every count 0..9 and item "
+           "index 1..14 against the operator's table (which indices are emitted, held back, complete).  "
+           "Item values, predicates and accumulators are NOT decided (they quantify over runtime values).",
     "C03": "Structural clauses of the combinators: all upstream observers of one activation are registered "
            "before any upstream is subscribed (H-register-first), and every complete/error handler of a "
            "combinator reaches the matching downstream terminal on every path.  Pairing / interleaving "
